@@ -328,7 +328,7 @@ func installModeB(n *Node) *ModeB {
 	must(err)
 	base, err := controller.NewBase(core.ACTION_SWAP)
 	must(err)
-	swapC := &swapController{BaseController: base, bank: app.BankKeeper, pool: n.Env.Noble[2].Addr}
+	swapC := &swapController{BaseController: base, bank: app.BankKeeper, pool: n.Env.Pool.Addr}
 	must(k2.SetActionControllers(feeC, swapC))
 	ibcA, err := adapterctrl.NewIBCAdapter(cdc, logger)
 	must(err)
